@@ -79,6 +79,10 @@ def _rclasses(rng, seed):
         out.append(['malformed', how])
     out.append(['wsdl'])
     out.append(['badreturn'])
+    for verb in ('GET', 'PUT', 'HEAD'):
+        out.append(['verb', verb])
+    for cs in ('latin-1', 'bogus-charset', 'utf-16'):
+        out.append(['charset', cs])
     return out
 
 
@@ -300,7 +304,11 @@ def judge(case, uni, req, o, ml, cl):
             viol('I5-user-code-ran', '', 'user code ran for a request whose '
                  'declared length %d exceeds max_content_length %d' % (cl, ml))
         code = _fault_code(out_prot, o)
-        if code != 'Client.RequestTooLong':
+        if rkind == 'verb' and o.bytes_read == 0 and \
+                                           canon.is_client_code(code):
+            # refused even earlier (wrong HTTP verb), without reading a byte
+            pass
+        elif code != 'Client.RequestTooLong':
             viol('I5-not-refused', str(code), 'declared length %d > limit %d '
                  'answered with %r / fault code %r' % (cl, ml, o.status, code))
         elif fam != 'soap' and not (o.status or '').startswith('413'):
